@@ -17,6 +17,18 @@ CLAIMS = {
          "lock/bit-pool level; assumes bitPool.available < length at Recycle (pigeonhole fact); query open/close and the structural-operation coverage are claimed only as far as evidence.functions_under_contract lists them"),
  "C18": ("proof", "Proof that the type registry maps a known type to its old id and a new type to the next sequential id, panics (changing nothing) exactly when the documented maximum is exceeded, that unregisterLastComponent is the inverse used for the locked-world rollback, that the registry invariant (bijection types<->ids, Used mask = low count bits) is preserved, and that mask-to-ID-list conversion is free of index faults for every count up to and including the maximum (this obligation found defect F-1, repaired by a fix: commit). All 22 mask methods are proved against the set-of-bits view for both widths.", "6 C18",
          "resources (Resources.Add/Get/Has/Remove) and World.componentID rollback are claimed only as far as evidence.functions_under_contract lists them; types[idx] bound in toTypes is unclaimed (needs a population-count invariant)"),
+ "C03": ("proof", "Proof of the matching predicates that queries are built from: filter.matches equals the documented predicate (mask contains every required component and, with exclusions, none of the excluded), Exclusive excludes exactly the complement, table.Matches equals 'every listed relation has exactly that target, generation included' (loop invariant over the relation list), and all mask primitives against the set-of-bits view. The iteration over archetypes/tables (Next/Count/EntityAt) is not yet under contract.", "6 C03",
+         "only the predicates; the cursor logic of the generated queries is not claimed"),
+ "C08": ("proof", "For every dispatch loop of the observer manager (create/remove entity, create/remove entity-relation, add, remove, set, set-relations, custom) two obligations per iteration are discharged against the DOCUMENTED predicate (docs/content/events, not events.go): the callback call is reached only if the predicate holds for the observer at hand (fires=>) and an iteration whose observer satisfies it reaches the callback (fires<=); bit-exact over all 2^256 masks. This found F-3 (partial removal fired a multi-component observer), fixed. Reset of the manager clears every event type (found F-2, fixed).", "6 C08",
+         "the early-out tests against the per-event aggregates and the aggregate recomputation in RemoveObserver are claimed only as far as evidence lists them; callbacks havoc all modelled memory, so nil-safety of later iterations after a callback unregistered an observer (F-8) is unclaimed"),
+ "C12": ("other", "Exhaustive enumeration, over the SSA of all functions of package ecs (not only those under contract), of every source of non-determinism (map iteration, goroutines, select, time, random, runtime, pointer-to-integer conversion); each must be mechanically order-independent (loop body only calls the commutative, idempotent (*tableIDs).Remove on the iteration value) or on the committed allow-list with its reason. Together with the contracts that define iteration order through slices only this is the sufficient condition of DESIGN 6 C12.", "6 C12",
+         "level other: a sound sufficient condition, no schedules or seeds are explored; histories using Shrink with a finite time limit are excluded (timing-dependent by design)"),
+ "C16": ("proof", "Proof that the Reset functions of the state components return them to the empty state: observerManager.Reset leaves no observer list non-empty for any of the 256 event types (loop invariant over event types; found F-2, fixed), entityPool.Reset empties the issued set and free list, bitPool/lock.Reset leave no lock bit outstanding, intPool.Reset and tableIDs.Clear empty their structures, mask Reset clears all bits.", "6 C16",
+         "storage.Reset / World.Reset / archetype.Reset / cache.Reset as wholes are not yet under contract; re-registration after Reset is not claimed"),
+ "C17": ("proof", "Proof of the binary entity codec for all 2^64 (id, generation) pairs and all byte strings: MarshalBinary yields exactly 8 bytes whose big-endian reading is (id, gen), UnmarshalBinary rejects exactly the inputs whose length is not 8 (leaving the entity untouched) and otherwise decodes that reading, AppendBinary keeps the prefix and appends that encoding; the round trip follows from the shared reading function. The pool functions that dump/load relies on are proved under C02.", "6 C17",
+         "encoding/binary.BigEndian methods are modelled by assumed dependency contracts; JSON codec and Unsafe.DumpEntities/LoadEntities are not claimed"),
+ "C20": ("proof", "All mask methods of both widths are proved against the same set-of-bits view, and the lemmas maskRelView / maskViewRel / maskNotRel prove that a 64-bit mask and a 256-bit mask are related (first word equal, others zero) iff they have the same view, so for component ids < 64 the two builds compute the same results mask-wise. Debug-vs-release equivalence of the query accessors is not claimed yet.", "6 C20",
+         "lifting from per-method equivalence to whole histories is a meta-argument; ark_debug functions not under contract"),
 }
 
 NA = {}
